@@ -12,9 +12,9 @@ import DateutilVerif.Proofs.RRuleTimes
 namespace RRule
 open Cal
 
-/-- the argument sets covered by the proved portion of `iter_eq_spec` -/
-structure DailyArgs (a : Args) : Prop where
-  freq : a.freq = 3
+/-- WEEKLY / DAILY argument sets covered by the proved portion of `iter_eq_spec` -/
+structure DWArgs (a : Args) : Prop where
+  freq23 : a.freq = 2 ∨ a.freq = 3
   interval : 1 ≤ a.interval
   valid : a.dtstart.Valid
   byweekno : a.byweekno = none
@@ -22,11 +22,19 @@ structure DailyArgs (a : Args) : Prop where
   bysetpos : a.bysetpos = none
   monthday_nz : ∀ x ∈ a.bymonthday.getD [], x ≠ 0
 
+/-- DAILY argument sets -/
+structure DailyArgs (a : Args) : Prop extends DWArgs a where
+  freq : a.freq = 3
+
 variable {a : Args} {r : Rule}
+
+theorem DWArgs.gt1 (da : DWArgs a) : a.freq > 1 := by rcases da.freq23 with h | h <;> omega
+theorem DWArgs.ne0 (da : DWArgs a) : (a.freq == 0) = false := by rcases da.freq23 with h | h <;> simp [h]
+theorem DWArgs.ne1 (da : DWArgs a) : (a.freq == 1) = false := by rcases da.freq23 with h | h <;> simp [h]
 
 /-- the normalised rule of a DAILY argument set, up to the three unit lists -/
 abbrev dailyRuleOf (a : Args) (bh bm bs : Option (List Int)) : Rule :=
-  { freq := 3, interval := a.interval, wkst := a.wkst.getD 0,
+  { freq := a.freq, interval := a.interval, wkst := a.wkst.getD 0,
     dtstart := { a.dtstart with us := 0 }, tz := a.tz, count := a.count, untilDT := a.untilDT,
     bysetpos := none, bymonth := a.bymonth.map sortedSet, bymonthday := bymonthdayOf a,
     bynmonthday := bynmonthdayOf a, byyearday := a.byyearday.map sortedSet,
@@ -35,21 +43,21 @@ abbrev dailyRuleOf (a : Args) (bh bm bs : Option (List Int)) : Rule :=
     byhour := bh, byminute := bm, bysecond := bs,
     timeset := some (Spec.RRule.timesOf a none none none) }
 
-theorem daily_rule (da : DailyArgs a) (h : construct a = .ok r) : ∃ bh bm bs, r = dailyRuleOf a bh bm bs := by
-  have hts := construct_timeset a r h (by rw [da.freq]; omega)
+theorem daily_rule (da : DWArgs a) (h : construct a = .ok r) : ∃ bh bm bs, r = dailyRuleOf a bh bm bs := by
+  have hts := construct_timeset a r h (by rcases da.freq23 with h | h <;> omega)
   obtain ⟨sp, bh, bm, bs, ts, h1, h2, h3, h4, h5, rfl⟩ := construct_ok a r h
   dsimp only at hts
   subst hts
   simp only [normBysetpos, da.bysetpos] at h1
   injection h1 with h1; subst h1
-  exact ⟨bh, bm, bs, by simp [dailyRuleOf, da.freq, da.byweekno, da.byeaster, bymonthOf]⟩
+  exact ⟨bh, bm, bs, by simp [dailyRuleOf, da.ne0, da.byweekno, da.byeaster, bymonthOf]⟩
 
-theorem daily_cuts (da : DailyArgs a) (h : construct a = .ok r) : CutsAgree a r := by
+theorem daily_cuts (da : DWArgs a) (h : construct a = .ok r) : CutsAgree a r := by
   obtain ⟨bh, bm, bs, hr⟩ := daily_rule da h
   rw [hr]; exact ⟨rfl, rfl, rfl⟩
 
-theorem daily_simple (da : DailyArgs a) (h : construct a = .ok r) : SimpleRule r := by
-  have hd := construct_nth_demoted a r h (by rw [da.freq]; omega)
+theorem daily_simple (da : DWArgs a) (h : construct a = .ok r) : SimpleRule r := by
+  have hd := construct_nth_demoted a r h da.gt1
   obtain ⟨bh, bm, bs, hr⟩ := daily_rule da h
   rw [hr] at hd ⊢
   refine ⟨rfl, ?_, rfl⟩
@@ -82,25 +90,24 @@ theorem yearday_clause (l : Option (List Int)) (u v : Int) :
         rw [truthy_eq_not_isEmpty, isEmpty_sortedSet]; rfl
       simp only [Option.map_some, ht, memO, contains_sortedSet, Bool.not_true, Bool.false_or]
 
-theorem weekday_clause (da : DailyArgs a) (wd : Int) (f : Int × Int → Bool) :
+theorem weekday_clause (da : DWArgs a) (wd : Int) (f : Int × Int → Bool) :
     (!truthy (byweekdayOf a) || memO wd (byweekdayOf a)) =
-    ((a.byweekday.getD []).isEmpty ||
-      (a.byweekday.getD []).any (fun wn => wn.1 == wd && (wn.2 == 0 || decide (a.freq > 1) || f wn))) := by
-  have hw : weekdayArg a = a.byweekday := by unfold weekdayArg; simp [da.freq]
-  unfold byweekdayOf; rw [hw]
-  cases hl : a.byweekday with
+    (((weekdayArg a).getD []).isEmpty ||
+      ((weekdayArg a).getD []).any (fun wn => wn.1 == wd && (wn.2 == 0 || decide (a.freq > 1) || f wn))) := by
+  unfold byweekdayOf
+  cases hl : weekdayArg a with
   | none => rfl
   | some l =>
     dsimp only
     have hplain : ∀ x, x ∈ plainWeekdays a l ↔ x ∈ l.map (·.1) := by
       intro x; unfold plainWeekdays; rw [mem_dedup]
       have : l.filter (fun w => w.2 == 0 || decide (a.freq > 1)) = l := by
-        apply List.filter_eq_self.mpr; intro w _; simp [da.freq]
+        apply List.filter_eq_self.mpr; intro w _; simp [da.gt1]
       rw [this]
     have hf : (fun wn : Int × Int => wn.1 == wd && (wn.2 == 0 || decide (a.freq > 1) || f wn)) =
         (fun wn => wn.1 == wd) := by
       funext wn
-      have : decide (a.freq > 1) = true := by rw [da.freq]; decide
+      have : decide (a.freq > 1) = true := by simp [da.gt1]
       simp [this]
     have hany : ∀ (l : List (Int × Int)), l.any (fun wn => wn.1 == wd) = (l.map (·.1)).contains wd := by
       intro l
@@ -136,11 +143,11 @@ theorem weekday_clause (da : DailyArgs a) (wd : Int) (f : Int × Int → Bool) :
       rw [Bool.eq_iff_iff]
       simp only [List.contains_iff_mem, mem_sortBy, hplain]
 
-theorem monthday_clause (da : DailyArgs a) (d e : Int) (hd : 0 < d) (he : e < 0) :
+theorem monthday_clause (da : DWArgs a) (d e : Int) (hd : 0 < d) (he : e < 0) :
     (!(!(bymonthdayOf a).isEmpty || !(bynmonthdayOf a).isEmpty) ||
       (bymonthdayOf a).contains d || (bynmonthdayOf a).contains e) =
     ((a.bymonthday.getD []).isEmpty || (a.bymonthday.getD []).contains d || (a.bymonthday.getD []).contains e) := by
-  have hm : monthdayArg a = a.bymonthday := by unfold monthdayArg; simp [da.freq]
+  have hm : monthdayArg a = a.bymonthday := by unfold monthdayArg; simp [da.ne0, da.ne1]
   have hnz := da.monthday_nz
   unfold bymonthdayOf bynmonthdayOf; rw [hm]
   cases hl : a.bymonthday with
@@ -182,7 +189,7 @@ theorem monthday_clause (da : DailyArgs a) (d e : Int) (hd : 0 < d) (he : e < 0)
 
 /-- **bridge**: on every date, the model's date predicate of the constructed rule is the
     specification's `dateOk` of the argument set -/
-theorem simpleOk_eq_dateOk (da : DailyArgs a) (h : construct a = .ok r) (ord : Int) (ho : 1 ≤ ord) :
+theorem simpleOk_eq_dateOk (da : DWArgs a) (h : construct a = .ok r) (ord : Int) (ho : 1 ≤ ord) :
     simpleOk r ord = Spec.RRule.dateOk a ord := by
   obtain ⟨_, hv, _⟩ := toOrdinal_fromOrdinal ord ho
   obtain ⟨_, _, hd1, hd2⟩ := hv
@@ -191,18 +198,20 @@ theorem simpleOk_eq_dateOk (da : DailyArgs a) (h : construct a = .ok r) (ord : I
   unfold simpleOk Spec.RRule.dateOk
   dsimp only
   have hmonths : Spec.RRule.months a = a.bymonth.getD [] := by
-    unfold Spec.RRule.months; cases a.bymonth <;> simp [da.freq]
+    unfold Spec.RRule.months; cases a.bymonth <;> simp [da.ne0]
   have hmd : Spec.RRule.monthdays a = a.bymonthday.getD [] := by
-    unfold Spec.RRule.monthdays; simp [da.freq]
-  have hwds : Spec.RRule.weekdays a = a.byweekday.getD [] := by
-    unfold Spec.RRule.weekdays; simp [da.freq]
+    unfold Spec.RRule.monthdays; simp [da.ne0, da.ne1]
+  have hwds : Spec.RRule.weekdays a = (weekdayArg a).getD [] := by
+    unfold Spec.RRule.weekdays weekdayArg
+    have : Spec.RRule.noDayParts a = noDayParts a := rfl
+    rw [this]; split <;> rfl
   rw [hmonths, hmd, hwds, da.byweekno, da.byeaster]
   rw [month_clause,
       monthday_clause da _ _ (by omega) (by omega),
       weekday_clause da _ (fun wn => Spec.RRule.nthOk a ord (fromOrdinal ord).1 (fromOrdinal ord).2.1 wn.2)]
   simp only [Bool.and_true]
   generalize ((a.bymonth.getD []).isEmpty || (a.bymonth.getD []).contains (fromOrdinal ord).2.1) = b1
-  generalize ((a.byweekday.getD []).isEmpty || _) = b2
+  generalize (((weekdayArg a).getD []).isEmpty || _) = b2
   generalize ((a.bymonthday.getD []).isEmpty || _ || _) = b3
   rcases a.byyearday with _ | (_ | ⟨x, xs⟩)
   · cases b1 <;> cases b2 <;> cases b3 <;> rfl
